@@ -90,7 +90,7 @@ PLAN = {
     },
     "C04": {
         "level": "fault_enumeration",
-        "engines": lambda tier: [_e("release", "faultmc", "c04")],
+        "engines": lambda tier: [_e("release", "faultmc", "c04", also_build=[("release", "codec")])],
         "assumptions": [
             "which bytes a checksum covers comes from the harness's independent decoder (own CRC-32C, layout tables), not from the library",
             "containers are small (0.4-7 KB); quick: 8 containers, thorough: 26 containers plus pairs of positions on the small ones",
